@@ -76,7 +76,7 @@ BATCH_TIMEOUT = {"quick": 1500, "thorough": 6 * 3600}
 
 
 def n_cases(tier):
-    return 3300 if tier == "quick" else 45000
+    return 3300 if tier == "quick" else 40000
 
 
 def setup(tier):
